@@ -15,6 +15,6 @@ def wrap_dispatch : Option (List (List Nat × Nat)) := some [([65], 0), ([66], 1
 def unwrap_dispatch : Option (List (List Nat × Nat)) := some [([65], 0), ([66], 1), ([67], 0), ([68], 2)]
 def cvv_translate : Option (List (Nat × Nat)) := some [(97, 48), (98, 49), (99, 50), (100, 51), (101, 52), (102, 53)]
 def pvv_translate : Option (List (Nat × Nat)) := some [(97, 48), (98, 49), (99, 50), (100, 51), (101, 52), (102, 53)]
-def ibm_maketrans_from : Option (List (List Nat)) := some [[48, 49, 50, 51, 52, 53, 54, 55, 56, 57, 65, 66, 67, 68, 69, 70]]
+def ibm_maketrans_from : Option (List (List Nat)) := some [[48, 49, 50, 51, 52, 53, 54, 55, 56, 57, 65, 66, 67, 68, 69, 70], [48, 49, 50, 51, 52, 53, 54, 55, 56, 57, 65, 66, 67, 68, 69, 70]]
 
 end Psec.Generated.Tables
